@@ -11,8 +11,10 @@ from fractions import Fraction
 from ..core import frac, call_real
 
 ID = "C04"
-LEAN_MODULE = "CKT.Props.C04Pop"
+LEAN_MODULE = "CKT.Props.C04Gen"
 THEOREMS = [
+    # the scalar arithmetic of the model is the translated source (harness/translate/weights.py -> Generated/WeightArith.lean)
+    "CKT.C04Gen.generateWeights_translated", "CKT.C04Gen.generateWeights_infinite",
     "CKT.C04.infinite_budget", "CKT.C04.mem_allExact", "CKT.C04.allExact_no_zero", "CKT.C04.refuses_small_budget",
     "CKT.C04.visited_ge", "CKT.C04.dfs_full_ge", "CKT.C04.mem_visited", "CKT.C04.dfs_complete",
     "CKT.C04.exact_weight_ge_one", "CKT.C04.ceilRat_eq", "CKT.C04.count_bound", "CKT.C04.counter_length_le",
@@ -53,6 +55,13 @@ def _dyadic_row(rng, n, denom_bits):
 
 SMALL_LAWS = [([[4, 4], [4, 4]], 3), ([[6, 2], [4, 2, 2]], 2), ([[7, 1], [4, 4], [4, 4]], 30), ([[4, 4], [4, 2, 2]], "5/2"),
               ([[5, 3], [6, 2]], 4), ([[4, 2, 2], [4, 2, 2]], 3), ([[6, 1, 1], [4, 4]], 2), ([[4, 4], [4, 4], [4, 4]], 2)]
+
+
+def regenerate():
+    """the scalar arithmetic of _generate_qpd_weights, translated on every run"""
+    from ..translate import weights
+    from ..core import REPO, LEAN
+    weights.regenerate(REPO, LEAN)
 
 
 def cases(rng, tier):
